@@ -6,8 +6,10 @@ pub mod c15;
 pub mod c16;
 pub mod c17;
 pub mod c18;
+pub mod c32;
 pub mod c34;
 pub mod c35;
+pub mod c41;
 pub mod conv;
 pub mod gt;
 pub mod oracle;
@@ -38,8 +40,10 @@ pub const REGISTRY: &[(&str, fn(&mut Ctx))] = &[
     ("C29", oracle::run_c29),
     ("C30", gt::run_c30),
     ("C31", gt::run_c31),
+    ("C32", c32::run),
     ("C34", c34::run),
     ("C35", c35::run),
+    ("C41", c41::run),
     ("C43", conv::run_c43),
     ("SMOKE", smoke::run),
 ];
